@@ -15,7 +15,7 @@ from .. import bases, bootstrap, contracts, fingerprint as fpr
 
 PROPERTY = "C08"
 RULE = ("Every settable property (by reflection) of every class x base shapes in general position x positive targets at length "
-        "ratios {1e-3,0.05,0.37,1,2.9,40,1e3} and targets 0, -0.0, -1, nan; thorough adds random chains of setters.  Properties "
+        "ratios {1e-3,0.05,0.37,1,2.9,40,1e3} and targets 0, -0.0, -1, nan (+inf on the vertex-based classes); thorough adds random chains of setters.  Properties "
         "whose getter raises on the base shape (no circumsphere, not implemented) are 'not provided', not judged.  Non-trivial = "
         "every (class, base, property, target) combination with ratio != 1 or a bad target; distinct = that tuple.")
 ASSUMPTIONS = ["single-parameter setters (semi-axis a/b/c, rounding radius) are judged on read-back, on leaving every other parameter "
@@ -28,7 +28,7 @@ ANCHORS = ["coxeter.shapes.polygon:Polygon._rescale", "coxeter.shapes.polyhedron
 REQUIRED_MONITORS = ["read-back", "similarity", "dimensionless-preserved", "scaling-law", "bad-target-refused", "translation"]
 EXHAUSTIVE = False
 RATIOS = (1e-3, 0.05, 0.37, 1.0, 2.9, 40.0, 1e3)
-BAD = (0.0, -0.0, -1.0, float("nan"))
+BAD = (0.0, -0.0, -1.0, float("nan"), float("inf"))
 SINGLE = {("Ellipse", "a"), ("Ellipse", "b"), ("Ellipsoid", "a"), ("Ellipsoid", "b"), ("Ellipsoid", "c"),
           ("ConvexSpheropolygon", "radius"), ("ConvexSpheropolyhedron", "radius")}
 CLASSES = ["ConvexPolyhedron", "Polyhedron", "ConvexSpheropolyhedron", "Polygon", "ConvexPolygon", "ConvexSpheropolygon",
@@ -64,6 +64,10 @@ def plan():
                     for r in RATIOS:
                         out.append((cname, bi, sname, "ratio", r))
                     for b in BAD:
+                        # +inf: only where the statement's last clause decides it (a vertex-based shape would be left with
+                        # non-finite vertices); an infinite radius / semi-axis of a curved shape is outside the stated targets
+                        if math.isinf(b) and (not hasattr(cls, "vertices") or sname == "radius"):
+                            continue
                         out.append((cname, bi, sname, "bad", b))
         _plan = out
     return _plan
@@ -156,7 +160,7 @@ def setup(rec, tier):
                     rec.check("read-back", float(getattr(s, name)) == 0.0, mech0 + "/read-back", lambda: info)
                     return
                 what = "nonfinite" if not finite_state(g1) else ("collapsed-or-mirrored" if not same_state(g0, g1) else "unchanged")
-                kind = "nan" if isinstance(v, float) and math.isnan(v) else ("zero" if float(v) == 0 else "negative")
+                kind = "nan" if isinstance(v, float) and math.isnan(v) else ("infinite" if math.isinf(float(v)) else ("zero" if float(v) == 0 else "negative"))
                 rec.violation("bad-target-refused", f"{mech0}/accepts-{kind}-target", lambda: dict(info, geometry_after=what))
                 return
             if isinstance(tok["old"], Exception):
